@@ -45,12 +45,15 @@ def history_lines(ctx):
     th = ctx.thorough()
     lines = []
     # (scenario, steps, datapack, treepack, max_faults)
-    plan = [(0, 5, 6000, 700, 90), (rng.choice([1, 2]), 5, 20000, 1, 60), (0, 7, 3000, 1, 90), (3, 3, 6000, 700, 70),
-            (4, rng.choice([3, 4, 5]), 20000, 20000, 90), (5, rng.choice([3, 4]), 20000, 20000, 90)]
+    # (scenario 6, the index-arrival-order sweep, runs from corpus.txt in the quick tier)
+    plan = [(0, 5, 6000, 700, 70), (rng.choice([1, 2]), 5, 20000, 1, 45), (0, 7, 3000, 1, 70), (3, 3, 6000, 700, 50),
+            (4, rng.choice([3, 4, 5]), 20000, 20000, 60), (5, rng.choice([3, 4]), 20000, 20000, 60),
+            (7, rng.choice([3, 4]), 20000, 20000, 60)]
     if th:
         plan = [(0, 6, 6000, 700, 0), (1, 8, 20000, 1, 0), (2, 6, 20000, 1, 0), (0, 8, 3000, 1, 0),
                 (0, 9, 12000, 2000, 0), (0, 5, 1, 1, 800), (1, 10, 1, 1, 800), (0, 10, 8000, 300, 600), (0, 12, 5000, 100, 600), (3, 3, 6000, 700, 0), (3, 5, 3000, 1, 600),
-                (4, 3, 20000, 20000, 0), (4, 5, 20000, 700, 0), (4, 4, 3000, 1, 0), (5, 3, 20000, 20000, 0), (5, 5, 4000, 700, 0)]
+                (4, 3, 20000, 20000, 0), (4, 5, 20000, 700, 0), (4, 4, 3000, 1, 0), (5, 3, 20000, 20000, 0), (5, 5, 4000, 700, 0),
+                (6, 1, 20000, 20000, 0), (6, 1, 20000, 1, 0), (7, 4, 20000, 20000, 0), (7, 3, 4000, 700, 0)]
     for (sc, steps, dp, tp, mf) in plan:
         lines.append("%d %d %d %d %d %d 1" % (rng.randint(1, 10 ** 9), sc, steps, dp, tp, mf))
     return lines
@@ -199,6 +202,7 @@ def run(ctx):
             if not clean: nontriv.add(cls + "|detected")
             elif rest_ok: nontriv.add(cls + "|harmless")
             wit = {"history_line": h["line"], "fault": F["_"], "file": F.get("file"), "check": F["check"], "kinds": F.get("kinds"),
+                   "index_arrival_orders_tried": F.get("orders", "1"),
                    "restore": F["restore"], "ops": H.get("ops"),
                    "how_to_replay": "echo '<history_line> <fault>' | .cache/target*/debug/c05 -   (last token selects the single fault)"}
             m = model_res.get(id(f))
